@@ -89,6 +89,10 @@ def spec_items(tier):
 
 def items(tier, seed):
     for i, it in enumerate(spec_items(tier)):
+        if i % 11 == 3 and it[1] <= 3:
+            # every eleventh spec also lists an outcome with probability 0: an existing state, a state nothing else leads to, or an
+            # entry of the initial distribution (such entries are no outcomes: nothing may depend on them)
+            it = build.with_zero_entry(it, ('inside', 'outside', 'zero_init')[(i // 11 + seed) % 3])[0]
         yield (it, (i + seed) % len(VARIANTS), (i // 7 + seed) % len(UNDEF), (i // 3 + seed) % 2, i % 5 == 0)
 
 
